@@ -65,7 +65,7 @@ def install():
             if self.variables_used or self.functions_used or self.suffixes_used:
                 fail('parse', 'scratch sets not empty after parse(%r)' % (expression[:80],))
             ent = self.cache.get(expression.replace(' ', ''))
-            if ent is not None:
+            if ent is not None and hasattr(ent, 'variables_used'):
                 snap = (frozenset(ent.variables_used), frozenset(ent.functions_used), frozenset(ent.suffixes_used))
                 key = (id(self), id(ent))
                 if key in snaps and snaps[key][1] != snap and snaps[key][0] is ent:
